@@ -17,6 +17,7 @@ pub struct G<'a> {
     funcs: Vec<String>,
     in_function: bool,
     sens: bool,
+    in_arch: bool,
 }
 
 impl<'a> G<'a> {
@@ -567,7 +568,7 @@ impl<'a> G<'a> {
         }
     }
     fn misc_decl(&mut self) {
-        match self.rng.below(5) {
+        match self.rng.below(14) {
             0 => {
                 let a = self.fresh("attr");
                 self.kw("attribute");
@@ -616,6 +617,262 @@ impl<'a> G<'a> {
                     self.t("\"in.txt\"");
                 }
                 self.e(";");
+            }
+            5 => {
+                let a = self.fresh("at");
+                self.kw("attribute");
+                self.t(&a);
+                self.e(": integer ;");
+                self.kw("attribute");
+                self.t(&a);
+                self.kw("of");
+                match self.rng.below(4) {
+                    0 => {
+                        self.kw("all");
+                        self.e(":");
+                        self.kw("signal");
+                    }
+                    1 => {
+                        self.kw("others");
+                        self.e(":");
+                        self.kw("label");
+                    }
+                    2 => {
+                        self.e("fx [ integer");
+                        self.kw("return");
+                        self.e("bit ] :");
+                        self.kw("function");
+                    }
+                    _ => {
+                        self.t("\"+\"");
+                        self.e("[ integer , integer");
+                        self.kw("return");
+                        self.e("integer ] :");
+                        self.kw("function");
+                    }
+                }
+                self.kw("is");
+                self.int_expr(1);
+                self.e(";");
+            }
+            6 => {
+                let a = self.fresh("als");
+                self.kw("alias");
+                match self.rng.below(3) {
+                    0 => {
+                        self.t(&a);
+                        self.kw("is");
+                        self.e("fx [ integer , bit");
+                        self.kw("return");
+                        self.e("bit ] ;");
+                    }
+                    1 => {
+                        self.t("\"+\"");
+                        self.kw("is");
+                        self.e("work . pkg0 .");
+                        self.t("\"+\"");
+                        self.e("[ t0 , t0");
+                        self.kw("return");
+                        self.e("t0 ] ;");
+                    }
+                    _ => {
+                        self.t(&a);
+                        self.e(": bit_vector ( 3");
+                        self.kw("downto");
+                        self.e("0 )");
+                        self.kw("is");
+                        self.e("sx ( 3");
+                        self.kw("downto");
+                        self.e("0 ) ;");
+                    }
+                }
+            }
+            7 => {
+                let t = self.fresh("ty");
+                self.kw("type");
+                self.t(&t);
+                match self.rng.below(6) {
+                    0 => {
+                        self.kw("is array");
+                        self.e("( natural");
+                        self.kw("range");
+                        self.e("<> , natural");
+                        self.kw("range");
+                        self.e("<> )");
+                        self.kw("of");
+                        self.e("bit ;");
+                    }
+                    1 => {
+                        self.kw("is file of");
+                        self.e("integer ;");
+                    }
+                    2 => {
+                        self.kw("is access");
+                        self.e("bit_vector ;");
+                    }
+                    3 => self.e(";"),
+                    4 => {
+                        self.kw("is range");
+                        self.e("0.0");
+                        self.kw("to");
+                        self.e("1.0 ;");
+                    }
+                    _ => {
+                        self.kw("is array");
+                        self.e("( 0");
+                        self.kw("to");
+                        self.e("1 )");
+                        self.kw("of");
+                        self.e("bit_vector (");
+                        self.kw("open");
+                        self.e(") ;");
+                    }
+                }
+            }
+            8 => {
+                let t = self.fresh("sty");
+                self.kw("subtype");
+                self.t(&t);
+                self.kw("is");
+                match self.rng.below(3) {
+                    0 => self.e("resolved std_ulogic ;"),
+                    1 => self.e("( resolved ) std_ulogic_vector ( 7 downto 0 ) ;"),
+                    _ => {
+                        self.e("arr_t (");
+                        self.kw("open");
+                        self.e(") ( 7");
+                        self.kw("downto");
+                        self.e("0 ) ;");
+                    }
+                }
+            }
+            9 => {
+                // subprogram instantiation
+                if self.rng.chance(1, 2) {
+                    self.kw("function");
+                    let f = self.fresh("fi");
+                    self.t(&f);
+                    self.kw("is new");
+                    self.e("gf");
+                    self.kw("generic map");
+                    self.e("( t => integer ) ;");
+                } else {
+                    self.kw("procedure");
+                    let f = self.fresh("pi");
+                    self.t(&f);
+                    self.kw("is new");
+                    self.e("gp [ integer ]");
+                    self.kw("generic map");
+                    self.e("( bit ) ;");
+                }
+            }
+            10 => {
+                // subprogram declarations with operator symbols and parameter classes
+                match self.rng.below(3) {
+                    0 => {
+                        self.kw("function");
+                        self.t("\"+\"");
+                        self.e("( l , r : integer )");
+                        self.kw("return");
+                        self.e("integer ;");
+                    }
+                    1 => {
+                        self.kw("procedure");
+                        let f = self.fresh("pd");
+                        self.t(&f);
+                        self.e("(");
+                        self.kw("variable");
+                        self.e("v :");
+                        self.kw("inout");
+                        self.e("integer ;");
+                        self.kw("file");
+                        self.e("f : text ;");
+                        self.kw("signal");
+                        self.e("s :");
+                        self.kw("in");
+                        self.e("bit ;");
+                        self.kw("constant");
+                        self.e("c : integer := 1 ) ;");
+                    }
+                    _ => {
+                        self.kw("function");
+                        let f = self.fresh("gfn");
+                        self.t(&f);
+                        self.kw("generic");
+                        self.e("(");
+                        self.kw("type");
+                        self.e("t )");
+                        self.kw("parameter");
+                        self.e("( x : t )");
+                        self.kw("return");
+                        self.e("t ;");
+                    }
+                }
+            }
+            11 => {
+                // package instantiation
+                let pn = self.fresh("ipk");
+                self.kw("package");
+                self.t(&pn);
+                self.kw("is new");
+                self.e("work . gpk");
+                self.kw("generic map");
+                self.e("( t => integer , n => 8 ) ;");
+            }
+            12 => {
+                // shared variable of a protected type
+                let v = self.fresh("shv");
+                self.kw("shared variable");
+                self.t(&v);
+                self.e(": prot_t ;");
+            }
+            13 if self.in_arch => {
+                // component declaration and configuration specification
+                let c = self.fresh("cd");
+                self.kw("component");
+                self.t(&c);
+                self.kw("is generic");
+                self.e("( g : integer ) ;");
+                self.kw("port");
+                self.e("( p :");
+                self.kw("in");
+                self.e("bit ) ;");
+                self.kw("end component");
+                self.e(";");
+                self.kw("for");
+                match self.rng.below(3) {
+                    0 => self.kw("all"),
+                    1 => self.kw("others"),
+                    _ => self.e("u1 , u2"),
+                }
+                self.e(":");
+                self.t(&c);
+                self.kw("use");
+                match self.rng.below(3) {
+                    0 => {
+                        self.kw("entity");
+                        self.e("work . ex ( ax )");
+                        self.kw("generic map");
+                        self.e("( g => 1 )");
+                        self.kw("port map");
+                        self.e("( p => p ) ;");
+                    }
+                    1 => {
+                        self.kw("open");
+                        self.e(";");
+                    }
+                    _ => {
+                        self.kw("configuration");
+                        self.e("work . cfx ;");
+                    }
+                }
+                if self.rng.chance(1, 2) {
+                    self.kw("end for");
+                    self.e(";");
+                } else {
+                    // the simple form; a use clause directly after it is the open finding F49
+                    self.object_decl("constant");
+                }
             }
             _ => self.type_decl(),
         }
@@ -705,7 +962,7 @@ impl<'a> G<'a> {
     // ----- sequential statements -----
     /// ivars / bsigs / vsigs: assignable integer variables, bit signals, vector signals
     fn seq_stmt(&mut self, d: usize, ivars: &[String], bsigs: &[String], vsigs: &[String]) {
-        let k = self.rng.below(if d == 0 { 7 } else { 14 });
+        let k = self.rng.below(if d == 0 { 7 } else { 19 });
         match k {
             0 | 1 if !ivars.is_empty() => {
                 let v = ivars[self.rng.below(ivars.len())].clone();
@@ -918,6 +1175,109 @@ impl<'a> G<'a> {
                 self.int_expr(1);
                 self.e(";");
             }
+            13 if !bsigs.is_empty() => {
+                // VHDL-2008 matching case statement
+                let s = bsigs[self.rng.below(bsigs.len())].clone();
+                self.kw("case");
+                self.e("?");
+                self.vec_expr(1);
+                self.kw("is when");
+                self.t("\"1-------\"");
+                self.e("=>");
+                self.t(&s);
+                self.e("<= '1' ;");
+                self.kw("when others");
+                self.e("=>");
+                self.t(&s);
+                self.e("<= '0' ;");
+                self.kw("end case");
+                self.e("? ;");
+            }
+            14 if !bsigs.is_empty() => {
+                // sequential selected signal assignment
+                let s = bsigs[self.rng.below(bsigs.len())].clone();
+                self.kw("with");
+                self.int_expr(1);
+                self.kw("select");
+                self.t(&s);
+                self.e("<=");
+                self.bit_expr(1);
+                self.kw("when");
+                self.e("0 ,");
+                self.bit_expr(1);
+                self.kw("when others");
+                self.e(";");
+            }
+            15 if !bsigs.is_empty() => {
+                let s = bsigs[self.rng.below(bsigs.len())].clone();
+                self.t(&s);
+                self.e("<=");
+                match self.rng.below(4) {
+                    0 => {
+                        self.kw("force");
+                        self.bit_expr(1);
+                    }
+                    1 => {
+                        self.kw("force in");
+                        self.bit_expr(1);
+                    }
+                    2 => self.kw("release"),
+                    _ => self.kw("release out"),
+                }
+                self.e(";");
+            }
+            16 if !ivars.is_empty() => {
+                // external names
+                let v = ivars[self.rng.below(ivars.len())].clone();
+                self.t(&v);
+                self.e(":= <<");
+                match self.rng.below(3) {
+                    0 => {
+                        self.kw("variable");
+                        self.e("^ . ^ . v1 : integer >> ;");
+                    }
+                    1 => {
+                        self.kw("constant");
+                        self.e("@ work . pkg0 . c0 : integer >> ;");
+                    }
+                    _ => {
+                        self.kw("signal");
+                        self.e(". tb . dut ( 1 ) . x : integer >> ;");
+                    }
+                }
+            }
+            17 => {
+                // procedure call statements
+                match self.rng.below(3) {
+                    0 => self.e("proc_a ;"),
+                    1 => {
+                        self.e("work . pkg0 . proc_b (");
+                        self.int_expr(1);
+                        self.e(",");
+                        self.kw("open");
+                        self.e(") ;");
+                    }
+                    _ => {
+                        let l = self.fresh("cl");
+                        self.t(&l);
+                        self.e(": proc_c ( a =>");
+                        self.int_expr(1);
+                        self.e(", b ( 0 ) =>");
+                        self.bit_expr(1);
+                        self.e(") ;");
+                    }
+                }
+            }
+            18 if !self.in_function && !self.sens => {
+                self.kw("wait on");
+                let s = self.pick(&self.bits.clone(), "clk");
+                self.t(&s);
+                self.kw("until");
+                self.bool_expr(1);
+                self.kw("for");
+                self.time_lit();
+                self.e(";");
+            }
             _ => {
                 self.kw("null");
                 self.e(";");
@@ -992,7 +1352,7 @@ impl<'a> G<'a> {
         self.reals = saved.4;
     }
     fn conc_stmt(&mut self, d: usize, bsigs: &[String], vsigs: &[String], ent: &(String, Vec<(String, usize)>, Vec<(String, usize)>)) {
-        match self.rng.below(if d == 0 { 6 } else { 10 }) {
+        match self.rng.below(if d == 0 { 6 } else { 15 }) {
             0 | 1 => self.process(bsigs, vsigs),
             2 if !bsigs.is_empty() => {
                 let s = bsigs[self.rng.below(bsigs.len())].clone();
@@ -1160,6 +1520,142 @@ impl<'a> G<'a> {
                 }
                 self.e(";");
             }
+            9 => {
+                // case generate with alternative labels
+                let l = self.fresh("cg");
+                self.t(&l);
+                self.e(":");
+                self.kw("case");
+                self.int_expr(1);
+                self.kw("generate when");
+                self.e("0 =>");
+                self.conc_stmt(d - 1, bsigs, vsigs, ent);
+                self.kw("when");
+                let a = self.fresh("alt");
+                self.t(&a);
+                self.e(": 1 | 2 =>");
+                self.conc_stmt(d - 1, bsigs, vsigs, ent);
+                self.kw("when others");
+                self.e("=>");
+                self.kw("end generate");
+                self.t(&l);
+                self.e(";");
+            }
+            10 => {
+                // component instantiations
+                let l = self.fresh("ci");
+                self.t(&l);
+                self.e(":");
+                match self.rng.below(3) {
+                    0 => {
+                        self.kw("component");
+                        self.e("comp_x");
+                        self.kw("generic map");
+                        self.e("( 4 )");
+                        self.kw("port map");
+                        self.e("( a , b =>");
+                        self.kw("open");
+                        self.e(", c ( 0 ) => d ) ;");
+                    }
+                    1 => {
+                        self.kw("configuration");
+                        self.e("work . cfg_x");
+                        self.kw("port map");
+                        self.e("( a => b ) ;");
+                    }
+                    _ => {
+                        self.e("comp_y");
+                        self.kw("port map");
+                        self.e("( to_bit ( a ) => b , c => f ( d ) ) ;");
+                    }
+                }
+            }
+            11 if !bsigs.is_empty() => {
+                // conditional / selected assignments with delay mechanisms
+                let s = bsigs[self.rng.below(bsigs.len())].clone();
+                match self.rng.below(3) {
+                    0 => {
+                        self.t(&s);
+                        self.e("<=");
+                        self.kw("transport");
+                        self.bit_expr(1);
+                        self.kw("after");
+                        self.time_lit();
+                        self.kw("when");
+                        self.bool_expr(1);
+                        self.kw("else");
+                        self.bit_expr(1);
+                        self.kw("when");
+                        self.bool_expr(1);
+                        self.kw("else unaffected");
+                        self.e(";");
+                    }
+                    1 => {
+                        self.kw("with");
+                        self.vec_expr(1);
+                        self.kw("select");
+                        self.e("?");
+                        self.t(&s);
+                        self.e("<=");
+                        self.kw("reject");
+                        self.e("1 ns");
+                        self.kw("inertial");
+                        self.bit_expr(1);
+                        self.kw("after");
+                        self.e("2 ns");
+                        self.kw("when");
+                        self.t("\"1-------\"");
+                        self.e(",");
+                        self.bit_expr(1);
+                        self.kw("when others");
+                        self.e(";");
+                    }
+                    _ => {
+                        let l = self.fresh("pa");
+                        self.t(&l);
+                        self.e(":");
+                        self.kw("postponed assert");
+                        self.bool_expr(1);
+                        self.kw("severity");
+                        self.e("note ;");
+                    }
+                }
+            }
+            12 => {
+                // concurrent procedure calls
+                if self.rng.chance(1, 2) {
+                    let l = self.fresh("pc");
+                    self.t(&l);
+                    self.e(":");
+                }
+                if self.rng.chance(1, 3) {
+                    self.kw("postponed");
+                }
+                self.e("proc_d (");
+                self.bit_expr(1);
+                self.e(") ;");
+            }
+            13 => {
+                // block with header
+                let l = self.fresh("bh");
+                self.t(&l);
+                self.e(":");
+                self.kw("block is generic");
+                self.e("( n : integer := 1 ) ;");
+                self.kw("generic map");
+                self.e("( n => 2 ) ;");
+                self.kw("port");
+                self.e("( p :");
+                self.kw("in");
+                self.e("bit ) ;");
+                self.kw("port map");
+                self.e("( p =>");
+                self.bit_expr(1);
+                self.e(") ;");
+                self.kw("begin end block");
+                self.t(&l);
+                self.e(";");
+            }
             _ => self.process(bsigs, vsigs),
         }
     }
@@ -1315,6 +1811,7 @@ impl<'a> G<'a> {
         self.kw("of");
         self.t(&name);
         self.kw("is");
+        self.in_arch = true;
         let mut bsigs = Vec::new();
         let mut vsigs = Vec::new();
         for _ in 0..2 + self.rng.below(4) {
@@ -1340,6 +1837,7 @@ impl<'a> G<'a> {
         let sigs: std::collections::HashSet<String> = declared_signals(&self.out);
         bsigs.retain(|x| sigs.contains(x));
         vsigs.retain(|x| sigs.contains(x));
+        self.in_arch = false;
         self.kw("begin");
         let ent = (name.clone(), generics, ports);
         for _ in 0..1 + self.rng.below(4) {
@@ -1374,6 +1872,149 @@ fn declared_signals(out: &[String]) -> std::collections::HashSet<String> {
     s
 }
 
+impl<'a> G<'a> {
+    fn extra_units(&mut self) {
+        if self.rng.chance(1, 3) {
+            let c = self.fresh("ctx");
+            self.kw("context");
+            self.t(&c);
+            self.kw("is library");
+            self.e("ieee ;");
+            self.kw("use");
+            self.e("ieee . std_logic_1164 .");
+            self.kw("all");
+            self.e(";");
+            self.kw("end context");
+            if self.rng.chance(1, 2) {
+                self.t(&c);
+            }
+            self.e(";");
+            self.kw("context");
+            self.e("work .");
+            self.t(&c);
+            self.e(";");
+            let e = self.fresh("ectx");
+            self.kw("entity");
+            self.t(&e);
+            self.kw("is end");
+            self.e(";");
+        }
+        if self.rng.chance(1, 3) {
+            // protected type: declaration and body
+            let p = self.fresh("ppk");
+            self.kw("package");
+            self.t(&p);
+            self.kw("is type");
+            self.e("prot_t");
+            self.kw("is protected procedure");
+            self.e("inc ;");
+            self.kw("impure function");
+            self.e("get");
+            self.kw("return");
+            self.e("integer ;");
+            self.kw("end protected");
+            if self.rng.chance(1, 2) {
+                self.e("prot_t");
+            }
+            self.e(";");
+            self.kw("end package");
+            self.e(";");
+            self.kw("package body");
+            self.t(&p);
+            self.kw("is type");
+            self.e("prot_t");
+            self.kw("is protected body variable");
+            self.e("v : integer := 0 ;");
+            self.kw("procedure");
+            self.e("inc");
+            self.kw("is begin");
+            self.e("v := v + 1 ;");
+            self.kw("end procedure");
+            self.e(";");
+            self.kw("impure function");
+            self.e("get");
+            self.kw("return");
+            self.e("integer");
+            self.kw("is begin return");
+            self.e("v ;");
+            self.kw("end function");
+            self.e(";");
+            self.kw("end protected body");
+            self.e(";");
+            self.kw("end package body");
+            self.e(";");
+        }
+        if self.rng.chance(1, 3) {
+            // generic package and its instantiation as a design unit
+            let p = self.fresh("gpk");
+            self.kw("package");
+            self.t(&p);
+            self.kw("is generic");
+            self.e("(");
+            self.kw("type");
+            self.e("t ;");
+            self.kw("constant");
+            self.e("n : natural := 4 ;");
+            self.kw("function");
+            self.e("f ( x : t )");
+            self.kw("return");
+            self.e("t");
+            if self.rng.chance(1, 2) {
+                self.kw("is");
+                self.e("<>");
+            }
+            self.e(") ;");
+            self.kw("constant");
+            self.e("c : natural := n ;");
+            self.kw("end package");
+            self.e(";");
+            let i = self.fresh("ipk");
+            self.kw("package");
+            self.t(&i);
+            self.kw("is new");
+            self.e("work .");
+            self.t(&p);
+            self.kw("generic map");
+            self.e("( t => integer , n => 8 , f => fi ) ;");
+        }
+        if self.rng.chance(1, 3) {
+            let c = self.fresh("cfg");
+            self.kw("configuration");
+            self.t(&c);
+            self.kw("of");
+            self.e("ex");
+            self.kw("is for");
+            self.e("rtl");
+            if self.rng.chance(1, 2) {
+                self.kw("for");
+                self.e("u1 : comp_x");
+                self.kw("use entity");
+                self.e("work . e2 ( a ) ;");
+                self.kw("end for");
+                self.e(";");
+            }
+            if self.rng.chance(1, 3) {
+                self.kw("for");
+                self.e("gen1 ( 0");
+                self.kw("to");
+                self.e("3 )");
+                self.kw("end for");
+                self.e(";");
+            }
+            self.kw("end for");
+            self.e(";");
+            self.kw("end");
+            if self.rng.chance(1, 2) {
+                self.kw("configuration");
+            }
+            if self.rng.chance(1, 2) {
+                self.t(&c);
+            }
+            self.e(";");
+        }
+    }
+}
+
 /// one design file: package (+ body), entity, architecture
 pub fn program(rng: &mut Rng) -> Vec<String> {
     let mut g = G {
@@ -1388,9 +2029,11 @@ pub fn program(rng: &mut Rng) -> Vec<String> {
         funcs: Vec::new(),
         in_function: false,
         sens: false,
+        in_arch: false,
     };
     let p = g.package();
     g.entity_and_architecture(&p);
+    g.extra_units();
     g.out
 }
 
